@@ -24,10 +24,21 @@ RULE = ('one case = one generated method: a signature of <= 3 (thorough 4) param
         'validator in its default / extra="ignore" / extra="allow" configurations; for views the designated context name equals '
         'an ordinary parameter name) and the '
         'acceptance (-32602 or not) is compared with the document\'s prediction (names within properties and required within '
-        'names); the documented name / required sets are also compared with the signature. One evaluation = one (method, '
-        'document kind, params object). Distinct = distinct (signature, configuration, kind, subset).')
+        'names); the documented name / required sets are also compared with the signature. The VALUES of the params objects '
+        'are numbers and, for every conforming subset (and a sample of the others), JSON null at one / every position and '
+        'falsy / other JSON kinds (0, false, "", [], {}, a string, a real): acceptance by binding depends on the names only. '
+        'Earlier callable: in a part of the function / view cases the SAME extractor object (one for all three document '
+        'kinds; through another or through the same specification object) documents ANOTHER callable of the same method '
+        'name, __module__ and __qualname__ (made by exec in a namespace of its own, as inner function of a factory, or by '
+        'redefinition in the same namespace) whose signature differs (renamed / one more / one less / defaults flipped) '
+        'before the method under test and once more after it; each of the three documents must describe the signature its '
+        'own dispatcher binds. One evaluation = one (method, document kind, params object) or one document of the other '
+        'callable. Distinct = distinct (signature, configuration, kind, subset, values).')
 ASSUMPTIONS = [
     'probe bodies accept any values, so -32602 can only come from binding',
+    'under a validating (pydantic) validator a conforming params object whose null sits on a parameter whose annotation excludes '
+    'null may be refused by VALUE validation: those are dispatched (no exception may escape) and counted unjudged; with the base '
+    'validator every value is judged',
     'only the pydantic extractor is judged (the default extractor documents nothing, the docstring extractor documents the docstring)',
 ]
 SHARDS = {'quick': 16, 'thorough': 16}
@@ -44,7 +55,14 @@ FLOORS = {'*': {**{f'{k}:{w}': 10 for k in ('openapi', 'openapi30', 'openrpc') f
                 'methods': 100, 'twin-registration': 30, 'exclusion:by-name': 30, 'exclusion:default-none': 30, 'exclusion:by-annotation': 30,
                 'validator:base': 100, 'validator:pydantic': 30, 'validator:pydantic:extra-ignore': 30, 'validator:pydantic:extra-allow:as-is': 30,
                 'view:context-name-equals-a-parameter-name': 30, 'style:wrapped': 30, 'style:view-static': 30, 'style:view-class': 30, 'style:view-static-inherited': 30, 'style:view-class-inherited': 30, 'signature:variadic': 30, 'signature:nullable': 30, 'signature:field-default': 30, 'signature:factory-default': 100, 'signature:via-copy': 100,
-                'signature:extractor:serialization-defaults-required': 100}}
+                'signature:extractor:serialization-defaults-required': 100,
+                'earlier-callable:documents-judged': 500, 'earlier-callable:exec': 30, 'earlier-callable:factory': 30, 'earlier-callable:redefined': 30,
+                'earlier-callable:same-extractor': 50, 'earlier-callable:same-spec': 50, 'earlier-callable:function': 60, 'earlier-callable:view': 30,
+                'earlier-callable:signature-renamed': 20, 'earlier-callable:signature-one-more': 20, 'earlier-callable:signature-one-less': 20,
+                'earlier-callable:signature-defaults-flipped': 20,
+                'values:one-null': 30000, 'values:all-null': 4000, 'values:falsy-and-other-kinds': 5000, 'values:conforming-names-judged': 15000,
+                'values:null-for-a-plain-parameter-without-default': 10000, 'values:null-for-a-plain-parameter-with-default': 10000,
+                'values:null-for-a-nullable-parameter-without-default': 2000}}
 
 
 def render(params, ctx_at, ctx_name, skip, as_view, first='self', lead=None, fname='f', extras=None):
@@ -129,6 +147,85 @@ def make_validator(name, pred):
     return vpd.PydanticValidator(coerce=False, exclude_param=pred, extra='allow')
 
 
+# JSON values a by-name request may carry: acceptance by BINDING depends on the names only
+VALUE_KINDS = [None, 0, False, '', [], {}, 'x', 1.5]
+
+
+def value_variants(sub, predicted_ok, nth, validating, full):
+    """-> [(label, params object)]: the plain all-numbers object, then objects whose values include JSON null / other kinds
+    (quick tier: per conforming subset one null position - rotating with the subset index `nth` - and alternately all-null /
+    other kinds; every 16th non-conforming subset. thorough: every null position, both, every 4th)"""
+    plain = {n: 1 for n in sub}
+    out = [('numbers', plain)]
+    if not sub:
+        return out
+    if predicted_ok:
+        out += [('one-null', dict(plain, **{n: None})) for i, n in enumerate(sub) if full or i == nth % len(sub)]
+        if len(sub) > 1 and (full or nth % 2 == 0):
+            out.append(('all-null', {n: None for n in sub}))
+        if not validating and (full or nth % 2 == 1):
+            out.append(('falsy-and-other-kinds', {n: VALUE_KINDS[(i + nth) % len(VALUE_KINDS)] for i, n in enumerate(sub)}))
+    elif nth % (4 if full else 16) == 0:
+        out.append(('one-null', dict(plain, **{sub[(nth // 4) % len(sub)]: None})))
+    return out
+
+
+SIBLING_NAMES = ['p', 'q', 'r', 's', 't']
+SIBLING_DIFFS = ['renamed', 'one-more', 'one-less', 'defaults-flipped']
+
+
+def sibling_params(params, diff):
+    """the signature of ANOTHER callable that goes by the same name (an earlier API version, a redefined handler)"""
+    ps = [tuple(p) for p in params]
+    out = {'renamed': [(SIBLING_NAMES[i], k, d) for i, (n, k, d) in enumerate(ps)], 'one-less': ps[:-1],
+           'defaults-flipped': [(n, k, not d) for n, k, d in ps]}.get(diff, list(ps))
+    if out == ps:
+        out = out + [('extra', 'KO', False)]
+    return out
+
+
+def in_factory(src):
+    """the function is the inner function of a factory: __qualname__ 'make.<locals>.f' whatever its signature"""
+    return 'def make():\n' + '\n'.join('    ' + l for l in src.splitlines()) + '\n    return f\n\nf = make()'
+
+
+def view_source(src, inherited=False):
+    if inherited:
+        return 'class Mixin:\n' + '\n'.join('    ' + l for l in src.splitlines()) + \
+               '\n\nclass V(ViewMixin, Mixin):\n    def __init__(self, context=None):\n        super().__init__()\n'
+    return 'class V(ViewMixin):\n    def __init__(self, context=None):\n        super().__init__()\n' + \
+           '\n'.join('    ' + l for l in src.splitlines())
+
+
+def signature_view(fn, drop):
+    """(by-name parameter names, those without a default) as Python sees the callable, minus the names in `drop`"""
+    import inspect
+    ps = [p for p in inspect.signature(fn).parameters.values()
+          if p.kind in (p.POSITIONAL_OR_KEYWORD, p.KEYWORD_ONLY) and p.name not in drop]
+    return [p.name for p in ps], [p.name for p in ps if p.default is inspect.Parameter.empty]
+
+
+def probe_names(ctx, disp, tname, universe, names, required):
+    """all params objects (values: numbers) over the subsets of `universe`: acceptance vs the document's prediction"""
+    for r in range(len(universe) + 1):
+        for sub in itertools.combinations(universe, r):
+            ctx.hit('subsets-dispatched')
+            pobj = {n: 1 for n in sub}
+            try:
+                out = disp.dispatch(json.dumps({'jsonrpc': '2.0', 'id': 1, 'method': tname, 'params': pobj}), context=world.Context('c17'))
+                rdoc = strictjson.decode(out[0])
+            except Exception as e:
+                return f'dispatch-raises:{type(e).__name__}', pobj, None
+            code = rdoc['error']['code'] if 'error' in rdoc else 0
+            predicted_ok = set(sub) <= set(names) and set(required) <= set(sub)
+            if predicted_ok and code == -32602:
+                return 'params-satisfying-the-published-schema-refused', pobj, rdoc
+            if not predicted_ok and code != -32602:
+                why = 'unlisted-name' if not set(sub) <= set(names) else 'missing-required'
+                return f'params-violating-the-published-schema-accepted:{why}:code{code}', pobj, rdoc
+    return None
+
+
 def run_method(ctx, params, ctx_at, positional, skip, style, validator='base', extras=None):
     params = [tuple(p) for p in params]
     as_view = style.startswith('view')
@@ -142,6 +239,12 @@ def run_method(ctx, params, ctx_at, positional, skip, style, validator='base', e
         extras['variadic'] = False      # *args under the pydantic validator is the known finding D4 (C04), not a documentation matter
     if validator == 'base' or ctx_at not in (None, 0) or style not in ('def', 'view') or positional:
         extras['field-default'] = False     # pydantic.Field defaults mean something to the pydantic validator only
+    # [how, share, diff]: ANOTHER callable with the same method name, __module__ and __qualname__ but another signature is
+    # documented by the same extractor object (share 'same-extractor': through another specification object; 'same-spec':
+    # through the same one) BEFORE this one, and once more after it
+    earlier = extras.pop('earlier', None)
+    if earlier and style not in ('def', 'view'):
+        earlier = None
     for k_, v_ in extras.items():
         if v_:
             ctx.hit('signature:' + k_)
@@ -159,6 +262,8 @@ def run_method(ctx, params, ctx_at, positional, skip, style, validator='base', e
             src = '@staticmethod\n' + src
         elif style.startswith('view-class'):
             src = '@classmethod\n' + src
+        if earlier and earlier[0] == 'factory' and style == 'def':
+            src = in_factory(src)
     class Injected(str):
         """marker annotation of injected (excluded) parameters"""
     import functools
@@ -186,13 +291,8 @@ def run_method(ctx, params, ctx_at, positional, skip, style, validator='base', e
         ctx.hit('view:context-name-equals-a-parameter-name')
     try:
         if as_view:
-            if style.endswith('-inherited'):
-                # the method comes from a plain mixin; the registered view only inherits it
-                vsrc = 'class Mixin:\n' + '\n'.join('    ' + l for l in src.splitlines()) + \
-                       '\n\nclass V(ViewMixin, Mixin):\n    def __init__(self, context=None):\n        super().__init__()\n'
-            else:
-                vsrc = 'class V(ViewMixin):\n    def __init__(self, context=None):\n        super().__init__()\n' + \
-                       '\n'.join('    ' + l for l in src.splitlines())
+            # ('-inherited': the method comes from a plain mixin; the registered view only inherits it)
+            vsrc = view_source(src, style.endswith('-inherited'))
             exec(compile(vsrc, '<vmon_c17_programs>', 'exec', dont_inherit=True), ns)
             raw = inspect.getattr_static(ns['V'], 'f')
             validator.validate(getattr(raw, '__func__', raw))
@@ -214,6 +314,52 @@ def run_method(ctx, params, ctx_at, positional, skip, style, validator='base', e
         ctx.violation(f'registration-raises:{type(e).__name__}', 'build', (src, style), source=src, exception=e)
         return
     ctx.hit('methods')
+    sib = None
+    if earlier:
+        how, share, diff = earlier
+        sparams = sibling_params(params, diff)
+        ssrc = render(sparams, ctx_at, ctx_name, skip, as_view, first='self')
+        if how == 'factory' and style == 'def':
+            ssrc = in_factory(ssrc)
+        # a namespace of its own with the same module name (how 'redefined': the SAME namespace - the handler was redefined
+        # and registered again, as after a reload)
+        sns = ns if how == 'redefined' else dict(ns)
+        main_fn = ns['V'] if as_view else ns['f']
+        try:
+            svalidator = make_validator(vname, pred)
+            if as_view:
+                exec(compile(view_source(ssrc), '<vmon_c17_programs>', 'exec', dont_inherit=True), sns)
+                sfn = inspect.getattr_static(sns['V'], 'f')
+                svalidator.validate(sfn)
+                smethod = pjrpc.server.dispatcher.ViewMethod(sns['V'], 'f', 'f', context=view_ctx)
+            else:
+                exec(compile(ssrc, '<vmon_c17_programs>', 'exec', dont_inherit=True), sns)
+                sfn = sns['f']
+                svalidator.validate(sfn)
+                smethod = pjrpc.server.Method(sfn, 'f', context=ctx_name if ctx_at is not None else None, positional=positional)
+            sdisp = pjrpc.server.Dispatcher()
+            sdisp.add_methods(smethod)
+        except Exception as e:
+            ctx.violation(f'registration-raises:{type(e).__name__}', 'build', (ssrc, style, 'sibling'), source=ssrc, exception=e)
+            return
+        if as_view:
+            ns['V'] = main_fn
+        else:
+            ns['f'] = main_fn
+        main_raw = inspect.getattr_static(main_fn, 'f') if as_view else main_fn
+        if (sfn.__module__, sfn.__qualname__) != (main_raw.__module__, main_raw.__qualname__) or sfn is main_raw:
+            ctx.skip('sibling-callable-does-not-share-module-and-qualname')
+            earlier = None
+        else:
+            drop = {'self'} | ({ctx_name} if ctx_at is not None and not as_view else set()) | ({'skip'} if skip else set())
+            snames, srequired = signature_view(sfn, drop)
+            suniverse = snames + ['zz'] + ([ctx_name] if ctx_at is not None and not as_view else []) + (['skip'] if skip else [])
+            sib = dict(method=smethod, disp=sdisp, names=snames, required=srequired, universe=suniverse, source=ssrc)
+            ctx.hit('earlier-callable:' + how)
+            ctx.hit('earlier-callable:' + share)
+            ctx.hit('earlier-callable:signature-' + diff)
+            ctx.hit('earlier-callable:' + ('view' if as_view else 'function'))
+    etag = ':same-named-callable-documented-by-the-same-extractor-object' if sib else ''
     # a bystander whose name differs from the method's only in a separator, with a signature of its own: its documentation
     # must not replace the method's (it is registered last)
     try:
@@ -250,6 +396,23 @@ def run_method(ctx, params, ctx_at, positional, skip, style, validator='base', e
         ctx.hit('twin-registration')
     universe = base_names + ['zz'] + ([ctx_name] if ctx_at is not None and not as_view else []) + (['skip'] if skip else []) + \
         (['rest'] if extras.get('variadic') else [])
+    _raw = inspect.getattr_static(ns['V'], 'f') if as_view else ns['f']
+    _sigp = inspect.signature(getattr(_raw, '__func__', _raw)).parameters
+
+    def nullable(name):
+        return name in _sigp and _sigp[name].annotation == typing.Optional[int]
+
+    ex_kw = {'json_schema_serialization_defaults_required': True} if extras.get('extractor:serialization-defaults-required') else {}
+    # (with an earlier callable: ONE extractor object serves every specification object of this case, whatever its kind)
+    one_extractor = x_pd.PydanticSchemaExtractor(exclude_param=pred, **ex_kw) if sib else None
+
+    def make_spec(kind, ex):
+        if kind == 'openapi':
+            return openapi.OpenAPI(info=openapi.Info(title='t', version='1'), schema_extractor=ex)
+        if kind == 'openapi30':
+            return openapi.OpenAPI(info=openapi.Info(title='t', version='1'), schema_extractor=ex, openapi='3.0.3')
+        return openrpc.OpenRPC(info=openrpc.Info(title='t', version='1'), schema_extractor=ex)
+
     for kind in ('openapi', 'openapi30', 'openrpc'):
         fam = f'{kind}:{style}'
         wit = dict(source=src, style=style, context_position=ctx_at, context_positional=positional, exclusion=skip or None,
@@ -274,25 +437,48 @@ def run_method(ctx, params, ctx_at, positional, skip, style, validator='base', e
         failed = False
         try:
             # (a pydantic model option that concerns the SERIALIZATION schema of models: no parameter becomes required by it)
-            ex = x_pd.PydanticSchemaExtractor(exclude_param=pred, **({'json_schema_serialization_defaults_required': True}
-                                                                       if extras.get('extractor:serialization-defaults-required') else {}))
-            if kind == 'openapi':
-                spec = openapi.OpenAPI(info=openapi.Info(title='t', version='1'), schema_extractor=ex)
-            elif kind == 'openapi30':
-                spec = openapi.OpenAPI(info=openapi.Info(title='t', version='1'), schema_extractor=ex, openapi='3.0.3')
-            else:
-                spec = openrpc.OpenRPC(info=openrpc.Info(title='t', version='1'), schema_extractor=ex)
+            ex = one_extractor or x_pd.PydanticSchemaExtractor(exclude_param=pred, **ex_kw)
+            spec = make_spec(kind, ex)
+            sib_docs = []
+            if sib:
+                sib_spec = spec if earlier[1] == 'same-spec' else make_spec(kind, ex)
+                sib_docs.append(json.loads(json.dumps(sib_spec.schema(path='/api', methods_map={'': [sib['method']]}), cls=specs.JSONEncoder)))
             doc = spec.schema(path='/api', methods_map={'': [t[1] for t in targets] + extra_documented})
             doc = json.loads(json.dumps(doc, cls=specs.JSONEncoder))
+            if sib:
+                sib_docs.append(json.loads(json.dumps(sib_spec.schema(path='/api', methods_map={'': [sib['method']]}), cls=specs.JSONEncoder)))
             for tname, _, _, _ in targets:
                 docs_[tname] = documented('openrpc' if kind == 'openrpc' else 'openapi', doc, f'/api#{tname}' if kind != 'openrpc' else tname)
+            sib_docs = [documented('openrpc' if kind == 'openrpc' else 'openapi', d, '/api#f' if kind != 'openrpc' else 'f') for d in sib_docs]
         except Exception as e:
-            ctx.violation(f'cannot-read-documented-parameters:{type(e).__name__}', fam, cls0, exception=e, **wit)
+            ctx.violation(f'cannot-read-documented-parameters:{type(e).__name__}' + etag, fam, cls0, exception=e, **wit)
             continue
+        # ---- the other callable of the same name: each of its documents (made before / after this one's) describes ITS signature
+        for when, (names, required) in zip(('before', 'after'), sib_docs):
+            ctx.hit('earlier-callable:documents-judged')
+            w2 = dict(wit, source=sib['source'], documented_names=names, documented_required=required, generated=when + '-the-other-callables-document',
+                      other_callable=src)
+            if sorted(names) != sorted(sib['names']) or sorted(required) != sorted(sib['required']):
+                ctx.violation('documented-names-differ-from-accepted:describes-another-callable-of-the-same-name' + etag, fam,
+                              cls0 + ('sibling', when), expected_names=sib['names'], expected_required=sib['required'], **w2)
+                failed = True
+                break
+            if kind != 'openapi30':
+                bad_s = probe_names(ctx, sib['disp'], 'f', sib['universe'], names, required)
+                if bad_s:
+                    ctx.violation(bad_s[0] + etag, fam, cls0 + ('sibling', when, json.dumps(bad_s[1])), params=bad_s[1], response=bad_s[2], **w2)
+                    failed = True
+                    break
+            ctx.ok(fam + ':other-callable-of-the-same-name', cls0 + ('sibling', when, earlier[2]))
         for tname, _, want_names, want_required in targets:
             names, required = docs_[tname]
             w2 = dict(wit, method=tname, documented_names=names, documented_required=required)
-            tag = '' if tname == 'f' else ':twin-registration-without-context'
+            tag = (etag if tname == 'f' else ':twin-registration-without-context')
+            if etag and tname == 'f' and sorted(names) == sorted(sib['names']) and sorted(names) != sorted(want_names):
+                ctx.violation('documented-names-differ-from-accepted:describes-another-callable-of-the-same-name' + etag, fam, cls0 + (tname,),
+                              expected_names=want_names, expected_required=want_required, **w2)
+                failed = True
+                continue
             if sorted(names) != sorted(want_names):
                 extra = sorted(set(names) - set(want_names))
                 missing = sorted(set(want_names) - set(names))
@@ -311,36 +497,57 @@ def run_method(ctx, params, ctx_at, positional, skip, style, validator='base', e
         if kind == 'openapi30':
             continue          # same request schema generator as 3.1: names and required lists were compared above
         bad = None
+        validating = vname != 'base'
+        nth = 0
         for r in range(len(universe) + 1):
             for sub in itertools.combinations(universe, r):
+                nth += 1
                 for tname, _, _, _ in targets:
                     if tname == 'ns.f':
                         continue      # the same Method configuration as 'f' under another name: documented names compared above
                     names, required = docs_[tname]
-                    ctx.hit('subsets-dispatched')
-                    pobj = {n: 1 for n in sub}
-                    text = json.dumps({'jsonrpc': '2.0', 'id': 1, 'method': tname, 'params': pobj})
-                    try:
-                        out = disp.dispatch(text, context=world.Context('c17'))
-                        rdoc = strictjson.decode(out[0])
-                    except Exception as e:
-                        bad = (f'dispatch-raises:{type(e).__name__}', pobj, None, tname)
-                        break
-                    code = rdoc['error']['code'] if 'error' in rdoc else 0
                     predicted_ok = set(sub) <= set(names) and set(required) <= set(sub)
-                    accepted = code != -32602
-                    ctx.hit('accepted' if accepted else 'refused')
-                    if predicted_ok and not accepted:
-                        bad = ('params-satisfying-the-published-schema-refused', pobj, rdoc, tname)
-                    elif not predicted_ok and accepted:
-                        why = 'unlisted-name' if not set(sub) <= set(names) else 'missing-required'
-                        bad = (f'params-violating-the-published-schema-accepted:{why}:code{code}', pobj, rdoc, tname)
-                    elif accepted and code != 0:
-                        bad = (f'accepted-call-failed:code{code}', pobj, rdoc, tname)
+                    # the VALUES: numbers first; then (all conforming subsets, every fourth of the others) JSON null and other kinds
+                    for label, pobj in value_variants(sub, predicted_ok, nth, validating, ctx.thorough):
+                        ctx.hit('subsets-dispatched')
+                        vtag = ''
+                        if label != 'numbers':
+                            ctx.hit('values:' + label)
+                            if predicted_ok:
+                                for n_, v_ in pobj.items():
+                                    if v_ is None:
+                                        ctx.hit('values:null-for-a-' + ('nullable' if nullable(n_) else 'plain') + '-parameter-'
+                                                + ('without' if n_ in required else 'with') + '-default')
+                            vtag = ':values-include-null' if any(v is None for v in pobj.values()) else ':values-of-other-json-kinds'
+                        text = json.dumps({'jsonrpc': '2.0', 'id': 1, 'method': tname, 'params': pobj})
+                        try:
+                            out = disp.dispatch(text, context=world.Context('c17'))
+                            rdoc = strictjson.decode(out[0])
+                        except Exception as e:
+                            bad = (f'dispatch-raises:{type(e).__name__}' + vtag, pobj, None, tname)
+                            break
+                        code = rdoc['error']['code'] if 'error' in rdoc else 0
+                        accepted = code != -32602
+                        if validating and predicted_ok and not all(v == 1 or (v is None and nullable(n)) for n, v in pobj.items()):
+                            # a validating validator may refuse the VALUE (null where the annotation excludes it): not a matter of binding
+                            ctx.unjudge('null-for-a-non-nullable-annotation-under-a-validating-validator')
+                            continue
+                        ctx.hit('accepted' if accepted else 'refused')
+                        if predicted_ok and not accepted:
+                            bad = ('params-satisfying-the-published-schema-refused' + vtag, pobj, rdoc, tname)
+                        elif not predicted_ok and accepted:
+                            why = 'unlisted-name' if not set(sub) <= set(names) else 'missing-required'
+                            bad = (f'params-violating-the-published-schema-accepted:{why}:code{code}' + vtag, pobj, rdoc, tname)
+                        elif accepted and code != 0:
+                            bad = (f'accepted-call-failed:code{code}' + vtag, pobj, rdoc, tname)
+                        if bad:
+                            break
+                        if label != 'numbers' and predicted_ok:
+                            ctx.hit('values:conforming-names-judged')
+                        ctx.ok(fam + (':accepted' if accepted else ':refused'), (src, style, positional, kind, sub, tname, vname, label, json.dumps(pobj)),
+                               sample=dict(wit, method=tname, params=pobj, response=rdoc))
                     if bad:
                         break
-                    ctx.ok(fam + (':accepted' if accepted else ':refused'), (src, style, positional, kind, sub, tname, vname),
-                           sample=dict(wit, method=tname, params=pobj, response=rdoc))
                 if bad:
                     break
             if bad:
@@ -407,7 +614,11 @@ def gen(ctx):
                         continue
                     if not full and k % 3 and not (ctx_at not in (None, 0)):
                         continue
-                    ex = {'variadic': (k // 7) % 4 == 0 and style in ('def', 'view'), 'nullable': k % 4 == 1,
+                    earlier = None
+                    if style in ('def', 'view') and k % (4 if deep else 8) == 2:
+                        j = k // (4 if deep else 8)
+                        earlier = [('exec', 'factory', 'redefined')[j % 3], ('same-extractor', 'same-spec')[(j // 3) % 2], SIBLING_DIFFS[(j // 6) % 4]]
+                    ex = {'earlier': earlier, 'variadic': (k // 7) % 4 == 0 and style in ('def', 'view'), 'nullable': k % 4 == 1,
                           'field-default': (k // 3) % 3 == 0, 'extractor:serialization-defaults-required': (k // 5) % 4 == 0,
                           'factory-default': (k // 2) % 5 == 0, 'via-copy': (k // 11) % 2 == 0 and style == 'def'}
                     yield 'method', dict(params=ps, ctx_at=ctx_at, positional=positional, skip=skip, style=style,
